@@ -175,6 +175,7 @@ type searchOpts struct {
 	predOK    func(b, pred *ssa.BasicBlock) bool
 	startAt   []*mpState // explicit start states (instead of accepting returns)
 	skipFirst bool       // start states are not tested for terminal/instr (loop header start)
+	startInstr ssa.Instruction // for explicit start states: only instructions before this one count in the start block
 }
 
 // check performs the backward search from the accepting returns of fn.
@@ -256,7 +257,15 @@ func (q *MustPass) search(fn *ssa.Function, acc Accept, depth int, o searchOpts)
 			}
 			// instructions in this block
 			discharged := false
-			for i := len(b.Instrs) - 1; i >= 0; i-- {
+			from := len(b.Instrs) - 1
+			if o.startInstr != nil && s.parent == nil && o.startAt != nil && b == o.startInstr.Block() {
+				for i, ins := range b.Instrs {
+					if ins == o.startInstr {
+						from = i - 1
+					}
+				}
+			}
+			for i := from; i >= 0; i-- {
 				if q.instrDischarges(fn, b.Instrs[i], depth) {
 					discharged = true
 					break
